@@ -489,11 +489,12 @@ func init() {
 		Real:        []string{"consensus/vbft SerializeVbftMsg/DeserializeVbftMsg and all 10 message types incl. vbft.Block (Serialize/Deserialize)", "blockProposalMsg/blockEndorseMsg/blockCommitMsg.Verify, HashMsg", "p2pserver/message/types ConsensusPayload (Serialization, Deserialization, SerializeUnsigned, Verify) inside WriteMessage/ReadMessage frames", "core/signature Sign/Verify, ontology-crypto"},
 		Stub:        []string{"VBFT Server (messages are built from model values through the wire format, not by Server.construct*Msg, which are unexported methods of the unstartable Server)", "byte stream (simulated reader)"},
 		Assumptions: []string{"ECDSA signatures are randomised (ontology-crypto draws the nonce from crypto/rand); signature bytes never enter the trace and no judged outcome depends on their value", "endorse/commit signatures cover only the block hash (by design); the other fields of those messages are bound by the enclosing signed consensus payload, which is what the payload-mutation mode checks", "signature malleability (r, n-s) is outside single-field/single-byte mutation and not explored"},
-		QuickRuns:   1200, ThoroughRuns: 80000, QuickCap: 60, ThoroughCap: 800,
+		QuickRuns:   800, ThoroughRuns: 60000, QuickCap: 60, ThoroughCap: 800,
 		RequiredProbes: []string{"kind_proposal", "kind_endorse", "kind_commit", "kind_handshake", "kind_heartbeat", "kind_blockinfo_fetch", "kind_blockinfo_fetch_resp", "kind_proposal_fetch", "kind_block_fetch", "kind_block_fetch_resp",
 			"payload_signature_verified", "payload_field_mutation_rejected", "payload_other_key_rejected", "proposal_signature_verified", "proposal_header_mutation_rejected", "proposal_empty_block_mutation_rejected", "vote_hash_mutation_rejected", "commit_map_permuted"},
 		Generate: genC44,
 		Execute:  execC44,
+		NoMinimise: noMin,
 	})
 }
 
@@ -1061,7 +1062,9 @@ func (c *c44ctx) proposalSig(rng *kernel.RNG, signer, other *poolKey) bool {
 		return false
 	}
 	run.Probe("proposal_signature_verified")
+	dropped := false
 	mustFail := func(label string, pb *mProposalBlock, pub keypair.PublicKey) {
+		dropped = false
 		m, ok := decode(label, pb)
 		if !ok {
 			return
@@ -1069,6 +1072,19 @@ func (c *c44ctx) proposalSig(rng *kernel.RNG, signer, other *poolKey) bool {
 		if m == nil {
 			c.rej++ // does not even decode (e.g. transaction root mismatch): rejected
 			return
+		}
+		if pb.Empty != nil {
+			// vbft.Block.Deserialize drops an empty block that does not decode (e.g. its transaction
+			// root no longer matches) instead of failing. The damaged part is then not accepted; what
+			// remains is the proposal without empty block, whose own signature is judged below.
+			if vb := vbftBlockOf(m); vb != nil && vb.EmptyBlock == nil {
+				run.Probe("damaged_empty_block_dropped_silently")
+				dropped = true
+				if bytes.Equal(pb.Blk.bytes(), p.Blk.bytes()) && pub == signer.pub {
+					c.rej++
+					return
+				}
+			}
 		}
 		c.evals++
 		var verr error
@@ -1151,7 +1167,9 @@ func (c *c44ctx) proposalSig(rng *kernel.RNG, signer, other *poolKey) bool {
 			name := mutateHdr(q.Empty.H, f)
 			run.Fault("proposal_empty_block_field_mutated")
 			mustFail("empty block header field "+name, q, signer.pub)
-			run.Probe("proposal_empty_block_mutation_rejected")
+			if !dropped {
+				run.Probe("proposal_empty_block_mutation_rejected")
+			}
 		}
 	}
 	// transaction list changed with a matching root
